@@ -65,6 +65,9 @@ structure PortDef where
   enabled : Bool := true
   writable : Bool := true
   tw : Option (JVal → TOut) := none
+  /-- the `expression` attribute is non-empty (the port follows a value expression). The value endpoint does not look
+  at it; the sequence endpoint refuses such a port (`port-with-expression`). -/
+  hasExpression : Bool := false
 
 /-- Switches between the repaired code (all `true`, the model proper) and the code before fixes/C05-*.diff. -/
 structure Cfg where
@@ -87,6 +90,7 @@ inductive Code
   | invalidField      -- 400 invalid-field (delays length, or a sequence value outside the domain)
   | portDisabled      -- 400 port-disabled
   | readOnlyPort      -- 400 read-only-port
+  | portWithExpression -- 400 port-with-expression (sequence requests only)
   | unexpected        -- 500 unexpected-error
   deriving DecidableEq, Repr
 
@@ -340,6 +344,7 @@ def handleSeq (cfg : Cfg) (st : PState) (known : Bool) (values delays : List JVa
   | .ok vs =>
     if !st.d.enabled then (st, .err .portDisabled) else
     if !st.d.writable then (st, .err .readOnlyPort) else
+    if st.d.hasExpression then (st, .err .portWithExpression) else      -- `if await port.get_attr('expression')`
     -- set_sequence: the running sequence is cancelled, the new one installed (none if `values` is empty).
     -- repeat ≤ 0 means "for ever" in the code; the model is only used with repeat ≥ 1 (the driver refuses others).
     let ds := delays.map delayMs
